@@ -314,6 +314,16 @@ func runC16(ctx *Ctx) *Report {
 		cliCase{Kind: "cli", Sub: "template", Args: []string{"stray"}, Doc: "-", Stdout: "pipe", Expect: "usage"},
 		cliCase{Kind: "cli", Sub: "mkdir", Args: []string{"--massive"}, Doc: d0, Stdout: "pipe", Expect: "usage"},
 	)
+	// input that cannot be read, or has a row no scanner accepts, right at its start: a failure, not an empty success
+	long := hxs("- " + strings.Repeat("x", 70000) + "\n- a\n")
+	blankThenLong := hxs("\n  \n- " + strings.Repeat("y", 66000) + "\n")
+	for _, sa := range [][]string{{"output"}, {"output", "--format", "json"}, {"output", "--format", "yaml"}, {"output", "--massive"}, {"mkdir", "--dry-run"}, {"mkdir", "--target-dir", "t"}, {"verify", "--target-dir", "t"}} {
+		cases = append(cases,
+			cliCase{Kind: "cli", Sub: sa[0], Args: append(append([]string{}, sa[1:]...), "--file", "adir"), Doc: d0, Stdout: "pipe", Expect: "fail", Pre: []FSEntry{{"adir", "d"}}},
+			cliCase{Kind: "cli", Sub: sa[0], Args: sa[1:], Doc: long, Text: "<first row of 70000 bytes>", Stdout: "pipe", Expect: "fail"},
+			cliCase{Kind: "cli", Sub: sa[0], Args: sa[1:], Doc: blankThenLong, Text: "<blank rows, then a row of 66000 bytes>", Stdout: "pipe", Expect: "fail"},
+		)
+	}
 	m := NewModel()
 	defer m.Close()
 	parallel(cases, ctx.Workers, func(m *Model, c cliCase) {
